@@ -151,6 +151,11 @@ def run(prop, tier, seed, rep):
             summary.setdefault(k, [0, {k2: ev[k2] for k2 in ev if k2 not in ("planes",)}, ev.get("planes")])[0] += 1
             rep.mismatch(owner, v["cls"], field, {"kind": "screen", "event": ev})
     json.dump(summary, open(os.path.join(core.BUILD, f"last_{prop}_verdicts.json"), "w"), indent=1, sort_keys=True)
+    if tier == "thorough":
+        idx = next(i for i, e in enumerate(events) if e["ev"] == "screen" and e.get("cells_valid") == 1 and e["cells"])
+        lo = max(j for j in range(idx) if events[j]["ev"] == "session_start")
+        core.anti_vacuity(rep, "Trace_Screen", events[lo:idx + 1], [(idx - lo, lambda e: (e["cells"][0].__setitem__(9, e["cells"][0][9] + "1"), e)[1], "C18")],
+                          boundary=lambda e: e["ev"] == "session_start", name="C18-selftest")
     scr = [e for e in events if e["ev"] == "screen"]
     rep.extra.update({"sessions": n, "screens_judged": len(scr),
                       "table_screens_with_cells": sum(1 for e in scr if e["cells_valid"] == 1),
